@@ -358,6 +358,7 @@ func init() {
 		}
 		c.Scenarios = append(c.Scenarios,
 			Scenario{Name: "diagnostic-culprits", Count: func(string) int { return len(c08Culprits) * len(c08Layouts) }, Run: func(_ string, idx int, r *Result) { c08CulpritRun(idx, r) }},
+			Scenario{Name: "type-flow-culprits", Count: func(string) int { return c08FlowCount() }, Run: func(_ string, idx int, r *Result) { c08FlowRun(idx, r) }},
 			Scenario{Name: "front-end-positions-of-edited-texts", Count: c08MutCount, Run: c08MutRun},
 		)
 		return c
